@@ -77,9 +77,10 @@ func VerifC01WriteSequence() {
 		if hasKey {
 			// a few keys case-split (the key-signature event forks over crd's key table anyway);
 			// every key's pitches are decided by VerifC01Pitch
-			// — among them two enharmonic pairs (Cb/B, Ebm/D#m): same tonic pitch and mode,
+			// — among them two enharmonic pairs (Cb/B, Ebm/D#m; pieces of one or two instances only,
+			// from three instances on the first four keys as measured before): same tonic pitch and mode,
 			// different signatures, so anything remembered per pitch-and-mode is put to the test
-			ki := vf.NondetIntRange("key", 0, vf.Ite(small, 4, 6))
+			ki := vf.NondetIntRange("key", 0, vf.Ite(small, 3, 6))
 			l, a, m := []int{2, 3, 0, 5, 6, 2, 1}[ki], []int{-1, 1, -1, 0, 0, -1, 1}[ki], []bool{false, true, false, true, false, true, true}[ki]
 			k := op.Key{Name: crdx.Name(l), Accidental: crdx.Acc(a), Minor: m}
 			in.Key = &k
